@@ -683,17 +683,20 @@ def computeEffects (mem : Memory) (pc : Nat) (halt : Bool) (rs : List (Nat × Vm
   (Memory.alloc mem (toAlloc : Int)).bind fun mem' =>
     storeChildren mem' (mem.length : Int) pc halt rs
 
+/-- the VM of compute child `i`: the parent's stack (minus the breadth) plus the index, empty
+memory, the parent's memory appended to the parent-memory list, the parent's repeat state, `pc + 1` -/
+def childVm (vm : Vm) (stack : Stack) (i : Nat) : Res Err Vm :=
+  (Stack.push stack (i : Int)).bind fun st =>
+    if vm.pc + 1 > usizeMax then .panic "attempt to add with overflow" else
+    .ok ({ pc := vm.pc + 1, stack := st, memory := [], parentMemory := vm.parentMemory ++ [vm.memory],
+           halt := false, rep := vm.rep } : Vm)
+
 def compute (child : ChildExec) (env : Env) (vm : Vm) : Res Err (Vm × Flow) := do
   let (stack, breadth) ← (Stack.pop vm.stack).mapErr fun _ => .computeStackEmpty
   if breadth < 1 then .err .computeInvalidBreadth else
   if ¬ (vm.parentMemory.length < Consts.maxComputeDepth) then .err .computeDepthReached else
-  let pm := vm.parentMemory ++ [vm.memory]
   if breadth.toNat > env.maxBreadth then .abort "compute breadth exhausts memory" else
-  let mk := fun (i : Nat) =>
-    (Stack.push stack (i : Int)).bind fun st =>
-      if vm.pc + 1 > usizeMax then .panic "attempt to add with overflow" else
-      .ok ({ pc := vm.pc + 1, stack := st, memory := [], parentMemory := pm, halt := false, rep := vm.rep } : Vm)
-  let rs ← runChildren child env mk (List.range breadth.toNat)
+  let rs ← runChildren child env (childVm vm stack) (List.range breadth.toNat)
   match sumGas (rs.map (·.1)) with
   | none => .err .outOfGas
   | some total =>
